@@ -398,8 +398,8 @@ def run(rep, tier, seed, selftest):
                 "documented bound of 127 with the E390 verdict, exact sizes up to 64 KiB, symbol-table shapes, names shared between modules); layout "
                 "variants of every invalid sample, repeated modules. Non-trivial = distinct source texts with >= 2 tokens." % 95,
         "samples": sample_cases,
-        "states": mc["distinct"] + sum(v["distinct"] for k, v in tl.items() if k not in (mc_name, place_name)),
-        "transitions": mc["generated"] + sum(v["generated"] for k, v in tl.items() if k not in (mc_name, place_name)),
+        "states": mc["distinct"] + sum(v["distinct"] for k, v in tl.items() if k not in (mc_name, place_name) and not v.get("foreign")),
+        "transitions": mc["generated"] + sum(v["generated"] for k, v in tl.items() if k not in (mc_name, place_name) and not v.get("foreign")),
         "traces_validated_against_impl": nruns - len(rejected),
         "traces_rejected": len(rejected),
         "trace_states": trace_states,
